@@ -1,5 +1,5 @@
 # replay of a bounded stand-in violation (C11): re-run native/c11_compilers.py
 import sys
-print("gaussian_merge n=3 gates=[('Dgate', (1,)), ('BSgate', (2, 0)), ('Kgate', (1,)), ('S2gate', (0, 2)), ('MZgate', (2, 1)), ('S2gate', (1, 0)), ('Rgate', (2,)), ('Vgate', (0,)), ('Dgate', (1,)), ('Dgate', (1,))]: with the opaque gates interpreted as fixed unitaries the compiled program [('Dgate', [1]), ('BSgate', [2, 0]), ('Kgate', [1]), ('Vgate', [0]), ('GaussianTransform', [0, 1, 2]), ('Dgate', [1]), ('MeasureFock', [0, 1, 2])] computes something else (max difference 0.287)")
+print('gaussian_unitary: a program with Rgate(0.4).H compiles to a different transformation (dagger ignored)')
 print('REPLAY-VIOLATION')
 sys.exit(1)
